@@ -103,9 +103,10 @@ CLAIMED['C04'] = dict(
          '(PartialApp1, PartialApp2, PartialAppLast, Flip, Composition) and the section variants (ListSection, IndexSection, SliceSection, CallSection through apply_section), with the wrapped callee, '
          'index, slice and call replaced by application recorders, so the result is the application term itself: each wrapper applies the callee to exactly the documented argument list, sections fill '
          'their empty slots left to right and reject too few arguments; and the hand-written run / run1 / run2 triples of the arithmetic builtins agree with each other for numbers of every tower level with '
-         'symbolic values (run(vec![a]) == run1(a), run(vec![a,b]) == run2(a,b), curried run1.run1 == run2).',
-    note='Partial: covers the function-value layer. Outside: the parser/evaluator routes that turn `a + b`, `a +(b)`, `+(a, b)`, `(+)`, sections and backtick identifiers into these Func values (Expr evaluation needs the '
-         'environment), user closures, operator assignment `a += b` (C02 covers its kernel), and builtins other than the arithmetic triples.',
+         'symbolic values (run(vec![a]) == run1(a), run(vec![a,b]) == run2(a,b), curried run1.run1 == run2). Statement level: 19 pairs of programs run by the real evaluator on real parse trees with symbolic inputs — '
+         'infix, call, left / right sections, call sections with one or two `_` slots, splat calls, sections with a splat before / after / around the slot, an operator as a function value and through an identifier, '
+         'operator assignment (also when the right-hand side reads the target) — each form gives the same outcome as the plain call, for all inputs.',
+    note='Partial: the function-value layer plus a fixed family of surface forms. Outside: backtick identifiers, user-defined operators with changed precedence (C03), builtins other than the arithmetic triples and the statement family.',
     design='§7 C04', technique='symbolic execution of rustc MIR + SMT (z3) with recorder stubs for callee / index / slice / call')
 CLAIMED['C12'] = dict(
     text='Bounded symbolic model checking of the pattern-matcher and type-predicate layer: (T) the real MIR of is_type, type_of and the numeric arms of call_type1 on 16 value kinds x 18 types '
@@ -131,16 +132,19 @@ CLAIMED['C17'] = dict(
          'and Expr::Frozen at use, executed on the real parse trees of ~25 programs `… f := freeze \\\\a, b -> BODY; …; f(x, y)` with symbolic integer inputs: 15 bodies over arithmetic, if, for, while with continue, for-yield with guard, '
          'try / throw, nested lambda, break with value, and / or / coalesce, print, free outer data and an outer function, a shadowing local; eager-binding programs (outer data / function reassigned after the freeze) and freeze-time '
          'failures (unbound free variable, assignment to an outer variable, even when the function is never called). Oracle: the C05 reference interpreter extended with the documented meaning of freeze (the frozen function computes what the '
-         'unfrozen one computes from the values its free variables had at freeze time); every implementation path agrees on value, raised-or-not and printed output for all x, y.',
-    note='Partial: a fixed family of programs. Outside: switch, structs, import, bare underscore, operators whose precedence is changed inside frozen code, constant folding of list literals and negative literals, programs outside the family. Stubs as C05.',
+         'unfrozen one computes from the values its free variables had at freeze time); every implementation path agrees on value, raised-or-not and printed output for all x, y. Differential family (no reference needed): '
+         'frozen vs unfrozen function on 17 bodies given as source text (literals of every kind, constant folding of lists and negative literals, switch with literal / list / binding patterns) and 10 eager-binding pairs '
+         '(the frozen function called after the outer variable was reassigned == the unfrozen one called before) over switch, for, lambda, try bodies.',
+    note='Partial: fixed families of programs. Outside: structs, import, bare underscore, operators whose precedence is changed inside frozen code, programs outside the families. Stubs as C05.',
     design='§7 C17', technique='symbolic execution of rustc MIR of the evaluator and of freeze on real parse trees + SMT (z3); reference interpreter evaluated symbolically')
 CLAIMED['C13'] = dict(
     text='Bounded symbolic model checking of the sequence functions that are noulith\'s own loop-free glue and do not call back into the evaluator: the builtin closures reverse, tail, butlast, uncons, uncons?, unsnoc, unsnoc?, second, third, '
          'only, len, enumerate, prefixes, suffixes, window, unique, frequencies, flatten, in / ∈ / not_in / ∉ / contains / ∋ / ∌ are executed on lists of 0..3 (thorough: 4) symbolic integers (every i64 value and every equality pattern '
          'between the elements; window sizes 1..3; flatten on up to 3 rows) and compared with the one-line definition of BUILTINS.md written out over the symbolic elements (first-occurrence order for unique, occurrence counts and default 0 '
-         'for frequencies, membership by ==, errors on too-short input where documented); no path panics.',
-    note='Partial: 25 of the ~60 functions the property lists. Outside: every function that takes a function argument or is implemented as a struct with access to the environment (map, filter, fold, scan, sort with comparator, zip, group, '
-         'partition, find, locate, take / drop with predicates, sum / product / min / max folds, ++ and friends), sort / transpose / join / split / words / lines, inputs other than lists of integers, longer lists. '
+         'for frequencies, membership by ==, errors on too-short input where documented); no path panics. Functions that call back into the evaluator — map, filter, fold, group with a relation, max / min (first of tied extrema, '
+         'observed through the integer representation) — are run through the real evaluator (real registrations in a real Env) and compared, for all inputs, with their executable specification written in noulith itself (loops and lists).',
+    note='Partial: 31 of the ~60 functions the property lists. Outside: scan, sort, zip, partition, find, locate, take / drop, sum / product, ++ and friends, transpose / join / split / words / lines, '
+         'inputs other than lists of integers, longer lists. '
          'The index, ordering, key and stream parts of the property\'s mechanism list are decided under C10, C08, C09, C11; panic-freedom of the rest of the closure-registered builtins under C14.',
     design='§7 C13', technique='symbolic execution of rustc MIR of the builtin closures + SMT (z3); definitions as formulas over the symbolic elements')
 NOT_APPLICABLE = {
